@@ -631,6 +631,7 @@ func (x *Unit) defaultDynamic(st *State, pc *preparedCall) []Term {
 	x.abstractions["dynamic call "+pc.name+": arbitrary user code (may panic, may re-enter)"] = true
 	x.interfere(st, pc.node, "call "+pc.name)
 	rets := x.freshResults(pc.sig, pc.name)
+	x.boundResults(st, pc.sig, rets)
 	n := x.traceEvent(st, pc.name, targs, rets)
 	// exceptional edge
 	pv := x.freshVal("panicval", SIface, nil)
@@ -654,6 +655,17 @@ func (x *Unit) freshResults(sig *types.Signature, name string) []Term {
 		rets = append(rets, x.freshVal("ret:"+name, x.U.SortOf(rt), rt))
 	}
 	return rets
+}
+
+// boundResults: whatever a call returns refers to objects that exist when it returns (references <= alloc after the call).
+func (x *Unit) boundResults(st *State, sig *types.Signature, rets []Term) {
+	x.regComp("alloc", SInt)
+	alloc := x.get(st, "alloc")
+	for i := 0; i < sig.Results().Len() && i < len(rets); i++ {
+		if p := x.refBound(rets[i], sig.Results().At(i).Type(), alloc, 0); p != "" {
+			x.assume(st, T(p, SBool))
+		}
+	}
 }
 
 // ---------------------------------------------------------------------------
@@ -795,6 +807,7 @@ func (x *Unit) applyContract(st *State, pc *preparedCall) []Term {
 			}
 		}
 		rets = x.freshResults(pc.sig, pc.name)
+		x.boundResults(st, pc.sig, rets)
 	}
 	callIdx := x.traceEvent(st, pc.name, targs, rets)
 	if len(c.Monitor) > 0 {
@@ -1412,7 +1425,7 @@ func (x *Unit) callMods(e *ast.CallExpr, ms *modSet) {
 			return
 		}
 		full := fn.FullName()
-		if full == "(reflect.Value).Call" {
+		if full == "(reflect.Value).Call" || full == "(reflect.Value).CallSlice" {
 			ms.all = true
 			return
 		}
